@@ -162,7 +162,8 @@ checks["C08"] = dict(
                   H("HarnessMetaRecord", {}, pkg="harness/hfs"),
                   H("HarnessMetaInit", {"F": 1}, pkg="harness/hfs", trace=True, crossval=2),
                   H("HarnessCrash", crash(3, 1, opset=9), shards=40, depth=8, timeout="30m"),
-                  H("HarnessCrash", crash(2, 1, opset=13, seg=64), shards=40, depth=8, timeout="30m")]),
+                  H("HarnessCrash", crash(2, 1, opset=13, seg=64), shards=40, depth=8, timeout="30m"),
+                  H("HarnessStableRace", {"P": 3}, pkg="harness/hsched", tags="verif", sched=True, shards=14, depth=3)]),
     required_reach=["stable-checked", "stable-bolt-checked", "meta-record-checked", "stable-set", "crash-verified", "stable-race-checked"],
     bounds=dict(quick="keys of 1..2 symbolic bytes, values of 6..9 symbolic bytes, uint64 values 64-bit symbolic; interleaved with a sealing append, a truncation and a reopen; crash family: K<=2 operations from {append, Set} then a power loss at any call - an acknowledged Set is read back after recovery",
                 thorough="K<=3 and DeleteRange in the alphabet"),
@@ -245,11 +246,13 @@ VERIF_ASSUME = ["ideal FNV-1a: running sums are collision-free and non-zero for 
 checks["C16"] = dict(
     runs=dict(
         quick=[H("HarnessNoFalseAlarm", {}, pkg="harness/hverif", shards=8, depth=4), H("HarnessRetry", {}, pkg="harness/hverif"),
-               H("HarnessHistory", {"K": 4}, pkg="harness/hverif", shards=14, depth=3)],
+               H("HarnessHistory", {"K": 4}, pkg="harness/hverif", shards=14, depth=3),
+               H("HarnessHistory", {"K": 3, "failures": 1}, pkg="harness/hverif", shards=8, depth=3)],
         thorough=[H("HarnessNoFalseAlarm", {}, pkg="harness/hverif", shards=8, depth=4), H("HarnessRetry", {}, pkg="harness/hverif"),
-                  H("HarnessHistory", {"K": 5}, pkg="harness/hverif", shards=28, depth=4, timeout="30m")]),
-    required_reach=["history-checked", "history-report", "history-partial-range", "retry-with-checkpoint", "retry-checked", "no-false-alarm-checked", "plain", "follower-restart", "head-truncated", "leader-change", "two-checkpoints", "leader-restart", "truncation-at-range-start"],
-    bounds="2..3 entries (symbolic Term, 1..2 symbolic Data bytes) then a checkpoint; every split of the replication into two batches; scenarios: plain, follower restart before the checkpoint, follower head truncation (expects ErrRangeMismatch), leadership change with a conflicting suffix of every length (tail truncation + new leader's entries), two consecutive checkpoints, a leader whose middleware restarted mid-interval, a tail truncation ending exactly where the follower's running sum starts; a batch (with or without the checkpoint) whose write to the underlying store fails once and is retried with the same entry objects; plus EVERY history of K=4 (thorough: 5) steps over a two-node cluster from the alphabet {node X appends an entry as leader, replicated or not; X appends a checkpoint as leader, replicated; X's middleware restarts; X compacts the first entry of its log} - leadership changes, conflicting suffixes replaced by the new leader's entries, restarts on non-empty logs and compactions inside ranges in every order - entries always delivered and read back unaltered: no report on any node may carry a checksum mismatch, a compacted range must give ErrRangeMismatch",
+                  H("HarnessHistory", {"K": 5}, pkg="harness/hverif", shards=28, depth=4, timeout="30m"),
+                  H("HarnessHistory", {"K": 4, "failures": 1}, pkg="harness/hverif", shards=28, depth=4, timeout="30m")]),
+    required_reach=["history-write-failed-and-retried", "history-checked", "history-report", "history-partial-range", "retry-with-checkpoint", "retry-checked", "no-false-alarm-checked", "plain", "follower-restart", "head-truncated", "leader-change", "two-checkpoints", "leader-restart", "truncation-at-range-start"],
+    bounds="2..3 entries (symbolic Term, 1..2 symbolic Data bytes) then a checkpoint; every split of the replication into two batches; scenarios: plain, follower restart before the checkpoint, follower head truncation (expects ErrRangeMismatch), leadership change with a conflicting suffix of every length (tail truncation + new leader's entries), two consecutive checkpoints, a leader whose middleware restarted mid-interval, a tail truncation ending exactly where the follower's running sum starts; a batch (with or without the checkpoint) whose write to the underlying store fails once and is retried with the same entry objects; plus EVERY history of K=4 (thorough: 5) steps over a two-node cluster from the alphabet {node X appends an entry as leader, replicated or not; X appends a checkpoint as leader, replicated; X's middleware restarts; X compacts the first entry of its log} - leadership changes, conflicting suffixes replaced by the new leader's entries, restarts on non-empty logs and compactions inside ranges in every order - entries always delivered and read back unaltered: no report on any node may carry a checksum mismatch, a compacted range must give ErrRangeMismatch; the same with K=3 (thorough: 4) and, at most once per history, a follower's underlying store failing a replicated write that is then retried with the same entry objects",
     assumptions=VERIF_ASSUME,
     outside=["more than two nodes in the history exploration, histories longer than K steps", "ranges modified while their verification runs"],
     level_text="Bounded symbolic execution of the real verifier.LogStore (StoreLogs, updateVerifyState, runVerifier, verify, checksumLog) on two or three nodes; entry contents and batch splits symbolic; z3 decides that no report carries a checksum mismatch when the stored range equals the leader's",
@@ -260,11 +263,12 @@ checks["C17"] = dict(
         quick=[H("HarnessDetect", {}, pkg="harness/hverif", shards=4, depth=4), H("HarnessRetry", {}, pkg="harness/hverif"), H("HarnessFnvStep", {"realfnv": 1}, pkg="harness/hverif"),
                H("HarnessNoFalseAlarm", {"scenario0": 3, "scenarios": 1}, pkg="harness/hverif", shards=4, depth=4), H("HarnessNoFalseAlarm", {"scenario0": 5, "scenarios": 2}, pkg="harness/hverif", shards=4, depth=4),
                H("HarnessNoFalseAlarm", {"scenario0": 0, "scenarios": 2}, pkg="harness/hverif", shards=4, depth=4),
-               H("HarnessHistory", {"K": 4, "mutate": 1}, pkg="harness/hverif", shards=14, depth=3)],
+               H("HarnessHistory", {"K": 4, "mutate": 1}, pkg="harness/hverif", shards=14, depth=3),
+               H("HarnessHistory", {"K": 3, "mutate": 1, "failures": 1}, pkg="harness/hverif", shards=8, depth=3)],
         thorough=[H("HarnessDetect", {}, pkg="harness/hverif", shards=4, depth=4), H("HarnessRetry", {}, pkg="harness/hverif"), H("HarnessFnvStep", {"realfnv": 1}, pkg="harness/hverif"),
                   H("HarnessNoFalseAlarm", {"scenario0": 3, "scenarios": 1}, pkg="harness/hverif", shards=4, depth=4), H("HarnessNoFalseAlarm", {"scenario0": 5, "scenarios": 2}, pkg="harness/hverif", shards=4, depth=4),
                   H("HarnessHistory", {"K": 5, "mutate": 1}, pkg="harness/hverif", shards=28, depth=4, timeout="40m")]),
-    required_reach=["history-checked", "history-report", "history-altered-in-flight", "history-divergence-reported", "leader-restart", "detect-checked", "in-flight", "at-rest", "retry-checked", "fnv-step-injective", "leader-change", "truncation-at-range-start"],
+    required_reach=["history-write-failed-and-retried", "history-checked", "history-report", "history-altered-in-flight", "history-divergence-reported", "leader-restart", "detect-checked", "in-flight", "at-rest", "retry-checked", "fnv-step-injective", "leader-change", "truncation-at-range-start"],
     bounds="range of 2..3 entries + checkpoint; one mutation at every position (first .. the checkpoint's predecessor) of Term (any other 64-bit value), first Data byte (any other value), Type (any other non-checkpoint value) or an added Extensions byte; injected before the follower's StoreLogs (in flight) or on read (at rest); every batch split; plus: a failed write retried unaltered is not blamed; plus: a follower that truncated a conflicting tail (any suffix length, and exactly the entry its running sum starts at) and stored the new leader's entries unaltered is not blamed for in-flight corruption, nor is a follower of a leader whose middleware restarted mid-interval, nor any node in any history of K=4 (thorough: 5) steps of the two-node history exploration (see C16) in which nothing is ever altered; plus, in the same exploration, at most one replicated entry altered in flight (one Data byte, any other value) at any replication step of any history: every later report of a node whose copy of the range differs from what the checkpoint's writer summed - and that did verify the range - carries ErrChecksumMismatch, every other report none; plus: one step of the real fnv1a.AddUint64/AddBytes64 is injective in state and input (bit-precise, z3)",
     assumptions=VERIF_ASSUME,
     outside=["length-changing mutations of Data and swapped entries (reduce to hash collisions of different-length sequences: excluded by the ideal-hash axiom, not decided bit-precisely)", "mutation of Index (memstore rejects non-contiguous entries)", "the documented exemption of the bootstrap configuration entry at index 1"],
@@ -307,9 +311,7 @@ checks["C09"] = dict(
         thorough=[H("HarnessMetaRecord", {}, pkg="harness/hfs"),
                   H("HarnessSeq", {"K": 3, "bmax": 1, "seg": 100, "ops": 4, "audit": 1}, shards=14, depth=5),
                   H("HarnessCrash", crash(1, 2, opset=1, usability=0, audit=1), shards=14, depth=8),
-                  H("HarnessFault", {"K": 2, "F": 1, "seg": 64}, shards=14, depth=7),
-                  H("HarnessFault", {"K": 2, "F": 1, "pre": 2, "seg": 256}, shards=14, depth=7),
-                  H("HarnessFault", {"K": 2, "F": 2, "seg": 64}, shards=56, depth=7, timeout="40m"),
+                  H("HarnessFault", {"K": 2, "F": 2, "seg": 64, "audit": 1}, shards=56, depth=7, timeout="40m"),
                   H("HarnessFormatWrite", {"maxplen": 9, "limit": 136, "maxbatches": 3}, pkg="harness/hseg", shards=28, depth=5, timeout="30m"),
                   H("HarnessFormatWrite", {"maxplen": 9, "limit": 4096, "maxbatches": 2}, pkg="harness/hseg", shards=8, depth=4),
                   H("HarnessFormatRead", {"maxplen": 9}, pkg="harness/hseg", shards=28, depth=5, timeout="30m"),
